@@ -183,7 +183,7 @@ def run(rep, tier, seed):
     # longer histories: random walks of the same model (3 instances), the action properties checked on every step
     dl = 7 if tier == "quick" else 10
     rs = common.run_tlc("MC_C13", (base % (dl, "FALSE", "TRUE")).replace("MaxInst = 2", "MaxInst = 3") + "CONSTRAINT Emit\n", timeout=3000, workers=4,
-                        simulate="num=%d" % (25 if tier == "quick" else 400), extra=["-depth", str(dl + 2), "-seed", str(seed + 13)])
+                        simulate="num=%d" % (25 if tier == "quick" else 150), extra=["-depth", str(dl + 2), "-seed", str(seed + 13)])
     common.require_ok(rs, "MC_C13 (random walks)")
     if rs.violated:
         raise common.MachineryError("MC_C13 (random walks): the intended specification violates %s" % rs.violated)
